@@ -387,6 +387,16 @@ static void sim_free_u(void *p)
 	free(p);
 }
 
+void sim_check_extra(void *extra, int have_scanner)
+{
+	sim_inst *I = sim_cur;
+	if (!I || !have_scanner)
+		return;
+	if (I->extra_set ? extra != (void *) I : extra != NULL)
+		ev("X foreign-extra: allocator call of instance %d carries the yyextra of %s", I->id,
+		   extra == NULL ? "nobody" : "another instance");
+}
+
 void *sim_alloc(size_t n)
 {
 	void *p;
